@@ -1,4 +1,4 @@
 SPECIFICATION Spec
-CONSTANTS S1 = 3 S2 = 3 S3 = 0  MaxV = 1  Start = "Mask"  Strict = FALSE  Cross = TRUE  Close = FALSE
+CONSTANTS S1 = 3 S2 = 3 S3 = 0  MaxV = 1  Start = "Mask"  Strict = FALSE  Cross = TRUE  Close = FALSE  LabelBoundary = FALSE
 CHECK_DEADLOCK FALSE
 INVARIANT CoordsAreBoundary
